@@ -28,7 +28,9 @@ LABELS = {
     "neg": [-3, -1, 0, 2, 5, 9, 11],
     "float": [0.5, 1.5, 2.0, 3.25, -1.5, 7.5, 10.0],
     "str": ["a", "b", "c", "d", "e", "f", "g"],
-    "mixed": [0, "a", 2, "b", 5, "c", "10"],
+    "mixed": [2, "a", 10, "b", -1, "c", -2],  # numbers whose string order differs from their numeric order
+    "mixed2": [0, "a", 2, "b", 5, "c", "10"],
+    "mixedfloat": [1.5, "a", 10, 2, "b", -0.5, "3"],
     "str2": ["10", "9", "b", "a1", "a", "Z", "_"],
 }
 
